@@ -96,8 +96,16 @@ def bad_line(rng):
 
 
 def impl_nist_string(line):
+    """every line is parsed at least twice during a check (correspondence, then the direct test).  The returned list is the caller's:
+    it is copied for the comparison and then overwritten in place, as a caller converting units would do -- a later parse of the same
+    text must not see that."""
     try:
-        return ("ok", parsers.nist_string(line))
+        r = parsers.nist_string(line)
+        out = list(r)
+        if isinstance(r, list):
+            for i in range(len(r)):
+                r[i] = r[i] * 1.986e-23 + 1.0
+        return ("ok", out)
     except ValueError:
         return ("ValueError", None)
     except ZeroDivisionError:
